@@ -23,6 +23,7 @@ PROPS = {
     "C07": dict(pkg="c07", shards=(6, 12), timeout=(600, 5400), fuzz=[("FuzzBoc", 300, 6)]),
     "C02": dict(pkg="c02", shards=(4, 16), timeout=(300, 3600)),
     "C03": dict(pkg="c03", shards=(4, 16), timeout=(600, 3600), typereg=True),
+    "C20": dict(pkg="c20", shards=(4, 16), timeout=(600, 3600), typereg=True),
     "C06": dict(pkg="c06", shards=(4, 16), timeout=(300, 3600)),
 }
 
